@@ -37,7 +37,7 @@ const (
 	tickShift = 250 * time.Microsecond // the driver looks at the world just after every polling instant of the syncers
 	msgShift  = 500 * time.Microsecond // message times: whole milliseconds + 0.5 ms, never a polling instant
 	stepShift = 750 * time.Microsecond // timed plan steps: whole milliseconds + 0.75 ms
-	rescueFor = 3000 * time.Second     // accounts arm: how long a perfect network may need after the limit
+	rescueFor = 600 * time.Second      // accounts arm: how long a perfect network may need after the limit
 )
 
 // expected is one trie the sync must have reconstructed.
@@ -839,7 +839,21 @@ func (r *run) judge() bool {
 
 	// (1) every node reachable from the root is on the disk under the hash of its own bytes; leaves = source
 	total := 0
-	for _, e := range r.want {
+	want := r.want
+	if r.accounts && c.Faults["get_error"] > 0 && len(want) > 1 {
+		// Which data tries SyncAccounts syncs is decided by a leaf scan of the synced main trie
+		// (GetAllLeavesOnChannel), and that API logs a storage read error and closes the channel: after an injected
+		// read error the scan may have been cut short, so a data trie may never have been started. The statement
+		// speaks about a trie whose sync completed; only the main trie is known to be one. Counted, not judged.
+		for _, e := range want[1:] {
+			if _, err := triekit.Walk(r.destDisk, e.root); err != nil {
+				r.probe("accounts_data_trie_skipped_after_read_error")
+				break
+			}
+		}
+		want = want[:1]
+	}
+	for _, e := range want {
 		w, err := triekit.Walk(r.destDisk, e.root)
 		if err != nil {
 			kind := "malformed-node"
@@ -870,7 +884,7 @@ func (r *run) judge() bool {
 	if cold == nil {
 		return false
 	}
-	for _, e := range r.want {
+	for _, e := range want {
 		base, err := cold.NewTrie(5)
 		if err != nil {
 			c.HarnessErr("NewTrie: %v", err)
